@@ -100,7 +100,8 @@ def plan_C04(tier, seed):
     k2 = [d for d in C.k2() if d.name in ("k2_i8", "k2_u8", "k2_i8_mid", "k2_i64", "k2_u64")]
     k3 = [d for d in C.k3() if d.name in ("k3_i8_lo", "k3_u8_hi", "k3_i64_lo", "k3_i8_zero")]
     decls += k2 + k3
-    decls += [d for d in C.k5(False) if d.name == "k5_i8_150g" or (th and d.n <= 140)]
+    if th:
+        decls += [d for d in C.k5(False) if d.n <= 40]
     L = 8 if th else 4
 
     def fill(m):
